@@ -9,7 +9,7 @@ import (
 
 // SiteName renders a site number as file:line of the library source.
 func SiteName(site uint32) string {
-	site &^= 0xC0000000
+	site &^= 0xE0000000
 	if int(site) < len(decimal128.VerifSites) {
 		return decimal128.VerifSites[site]
 	}
